@@ -273,3 +273,46 @@ Proof. exists ex_carrier, 481, ex_items_bad. split; [exact ex_wf|]. split; [disc
   split; [vm_compute; reflexivity|]. split.
   - exists 1%nat. split; [cbn; lia|vm_compute; reflexivity].
   - vm_compute. reflexivity. Qed.
+
+(* ---------- ExtractCRC with pointer_field 0 but a PRECEDING section: the hypothesis `pre c = []` of extract_crc_ok is
+   necessary.  The accessor takes section_length of the FIRST section and returns that section's last four bytes. ---------- *)
+Theorem extract_crc_preceding c o t : wf_carrier c -> pf c = 0 -> pre c = o :: t -> 4 <= len (obody o) ->
+  extract_crc (ser_payload c) = Ok (crc32_of (dropN (len (obody o) - 4) (obody o))).
+Proof. intros (Hpf & Hpre & W) P0 PR L4. rewrite PR in Hpre. inversion Hpre as [|? ? (Ht & H2 & H255 & Hh & Hl & Hb) _]; subst.
+  unfold ser_payload, ser_unit. rewrite P0, PR, ser_pre_cons. cbn [repeatN N.to_nat repeat app]. unfold ser_other.
+  rewrite <- !app_assoc. cbn [app].
+  set (lb := len (obody o)) in *. set (b1 := ohi o * 16 + lb / 256). set (b2 := lb mod 256).
+  set (REST := ser_pre t ++ ser_sec (sec c) ++ repeatN 255 (stuffing c)).
+  assert (SL: Psi.section_length (0 :: otid o :: b1 :: b2 :: obody o ++ REST) = lb).
+  { unfold Psi.section_length. cbn [Psi.pointer_field]. rewrite !len_cons, len_app. fold lb.
+    replace (1 + (1 + (1 + (1 + (lb + len REST)))) <=? 1 + 0) with false by lia.
+    change (dropN (1 + 0) (0 :: otid o :: b1 :: b2 :: obody o ++ REST)) with (otid o :: b1 :: b2 :: obody o ++ REST).
+    rewrite sl_cons3. unfold b1, b2. replace (ohi o * 16 + lb / 256) with ((ohi o * 4) * 4 + lb / 256) by lia.
+    apply field_len10; lia. }
+  unfold extract_crc. rewrite SL. rewrite !len_cons, len_app. fold lb.
+  replace (1 + (1 + (1 + (1 + (lb + len REST)))) <? 4) with false by lia.
+  replace (1 + (1 + (1 + (1 + (lb + len REST)))) <? lb) with false by lia.
+  rewrite w16_small by lia.
+  replace (1 + (1 + (1 + (1 + (lb + len REST)))) <? 4 + lb) with false by lia.
+  replace (sub16 (4 + lb) 4) with lb by (unfold sub16, w16; lia).
+  assert (SP: obody o = takeN (lb - 4) (obody o) ++ dropN (lb - 4) (obody o)) by (unfold takeN, dropN; symmetry; apply firstn_skipn).
+  assert (LT: len (takeN (lb - 4) (obody o)) = lb - 4) by (rewrite len_takeN; fold lb; lia).
+  assert (LD: len (dropN (lb - 4) (obody o)) = 4).
+  { assert (K: len (obody o) = len (takeN (lb - 4) (obody o) ++ dropN (lb - 4) (obody o))) by (rewrite <- SP; reflexivity).
+    rewrite len_app, LT in K. fold lb in K. lia. }
+  rewrite SP at 1. rewrite <- app_assoc.
+  change (0 :: otid o :: b1 :: b2 :: takeN (lb - 4) (obody o) ++ dropN (lb - 4) (obody o) ++ REST)
+    with ((0 :: otid o :: b1 :: b2 :: takeN (lb - 4) (obody o)) ++ dropN (lb - 4) (obody o) ++ REST).
+  rewrite slice_mid by (rewrite ?len_cons, ?LT, ?LD; lia). cbn [bind].
+  destruct (dropN (lb - 4) (obody o)) as [|a0 [|a1 [|a2 [|a3 [|? ?]]]]]; rewrite ?len_cons, ?len_nil in LD; try lia. reflexivity. Qed.
+
+Definition crc_pre_carrier : carrier :=
+  {| pf := 0; pre := [{| otid := 66; ohi := 15; obody := [9; 2; 3; 4; 5] |}]; sec := k1_sec; stuffing := 0 |}.
+Theorem extract_crc_preceding_refuted :
+  exists c, wf_carrier c /\ pf c = 0 /\ pre c <> [] /\
+            extract_crc (ser_payload c) = Ok (be32 2 3 4 5) /\ crc32_of (crc (sec c)) = be32 1 2 3 4.
+Proof. exists crc_pre_carrier. split.
+  { destruct k1_wf as (_ & _ & W). split; [cbn; lia|]. split; [|exact W].
+    constructor; [|constructor]. unfold wf_other. cbn [otid ohi obody]. repeat split; try (cbn; lia); try discriminate.
+    repeat constructor; unfold is_byte; lia. }
+  split; [reflexivity|]. split; [discriminate|]. split; vm_compute; reflexivity. Qed.
